@@ -290,6 +290,9 @@ func runCalls(c Case, e *env) []Event {
 	}
 	variant := c.str("variant", "")
 	runoff := c.num("runoff", 0)
+	if reverseOrder {
+		runoff += 500
+	}
 	if mode := c.str("mode", ""); mode != "" {
 		page = mutateBytes(page, mode, c.num("param", 0), r)
 	}
